@@ -114,7 +114,7 @@ fn main() {
                 // authenticated and well formed: answered normally
                 let want = if ki == 1 { (NXDOMAIN, 0) } else { (0, 1) };
                 let got = (d.ext_rcode(), d.data_counts()[0]);
-                if got != want { fail("[C10] an authenticated query must be answered normally (RCODE, number of answer records)", &input, &got, &want); }
+                if got != want { fail("[C10][C11] an authenticated query must be answered normally (RCODE, number of answer records)", &input, &got, &want); }
             }
         }}}
     }}}}}
